@@ -14,7 +14,8 @@ Inductive ty := TyNum | TyStr | TyBool.
 Inductive col := Col (t : ty) (i : N).
 
 (* a Python constant used as an operand: int, str (code points), None *)
-Inductive atom := AInt (z : Z) | AStr (s : list N) | ANone.
+(* AFlo h: the float h/2 (whole and half values: 2.0, -0.5, 10.0 ...; their repr is "n.0" / "n.5") *)
+Inductive atom := AInt (z : Z) | AStr (s : list N) | ANone | AFlo (h : Z).
 
 (* ---------------------------------------------------------------- operators *)
 Inductive binop :=
@@ -61,6 +62,7 @@ Inductive tok :=
 | TOp (o : binop)
 | TNot | TIs | TIn | TNull
 | TNum (z : Z) | TStr (s : list N) | TCol (c : col)
+| TFlo (h : Z)                              (* a float literal, in halves *)
 | TFn (f : fname)
 | TSub (k : N)
 | TBad.
@@ -89,6 +91,7 @@ Definition tok_eqb (a b : tok) : bool :=
   | TBad, TBad => true
   | TOp x, TOp y => binop_eqb x y
   | TNum x, TNum y => Z.eqb x y
+  | TFlo x, TFlo y => Z.eqb x y
   | TStr x, TStr y => codes_eqb x y
   | TCol x, TCol y => col_eqb x y
   | TFn FMod, TFn FMod => true
